@@ -40,6 +40,7 @@ class Escapes:
         self._getter_cache = {}
         self._resolving = set()
         self._resolved = {}
+        self.suppress = None     # optional callback (func, node, class name) -> True when the site provably cannot raise
 
     # ------------------------------------------------------------ class hierarchy
     def class_of(self, f, name):
@@ -256,6 +257,8 @@ class Escapes:
         is_gen = any(isinstance(n, (ast.Yield, ast.YieldFrom)) for n in walk_shallow(f.node))
         for (node, classes, origin) in self.sites(f):
             for cname in classes:
+                if self.suppress is not None and '@' + f.fq in origin and self.suppress(f, node, cname):
+                    continue
                 if not self.caught(f, node, cname):
                     if cname == 'StopIteration' and is_gen:
                         cname = 'RuntimeError'
@@ -398,6 +401,17 @@ class Escapes:
                     out.append('<value:' + short(d.value, 30) + '>')
             elif d.kind == 'param':
                 out.append('<param:' + d.name + '>')
+            elif d.kind == 'assign' and isinstance(d.value, ast.Name) and not f.rd.is_local(d.value.id):
+                vals = f.module.assigns.get(d.value.id) or []
+                got = False
+                for v in vals:
+                    if isinstance(v, ast.Call):
+                        dn = (dotted(v.func) or '').split('.')[-1]
+                        if dn in BUILTIN_EXC or [c for c in self.P.classes.values() if c.name == dn]:
+                            out.append(dn)
+                            got = True
+                if not got:
+                    out.append('<value:' + short(d.value, 30) + '>')
             elif d.value is not None:
                 out.append('<value:' + short(d.value, 30) + '>')
         return out or ['<unknown>']
